@@ -7,6 +7,7 @@ import (
 	"strings"
 
 	"github.com/pip-services3-gox/pip-services3-expressions-gox/mustache"
+	mtok "github.com/pip-services3-gox/pip-services3-expressions-gox/mustache/tokenizers"
 
 	"verifharness/model"
 	"verifharness/mon"
@@ -17,9 +18,9 @@ import (
 func init() { mon.Register("C10", buildC10) }
 
 var tmplNames = []string{"a", "B", "name", "x1", "_u", "é", "Ünï", "шляпа", "v-1", "Item", "straße"}
-var tmplTextPool = []string{"Hello", " ", ", ", "\n", "\t", "x", "}", "{", "} }", "'", "\"quoted\"", "it's", "/", "\\", "#", "^", "!", "é", "шляпа", "€", "😀", "𝄞", "￿", "<b>", "&amp;", "1 < 2", "if", "unless", "a.b", "  ", "\r\n", "%", "{ {", "}}"}
+var tmplTextPool = []string{"\u0080", "\u007f\u0080\u0081\u00a0", "Hello", " ", ", ", "\n", "\t", "x", "}", "{", "} }", "'", "\"quoted\"", "it's", "/", "\\", "#", "^", "!", "é", "шляпа", "€", "😀", "𝄞", "￿", "<b>", "&amp;", "1 < 2", "if", "unless", "a.b", "  ", "\r\n", "%", "{ {", "}}"}
 var tmplValuePool = []string{"", "v", "Alice", "1", "0", " ", "a\"b", "back\\slash", "sl/ash", "line\nbreak", "tab\t", "\r", "\b\f", "é", "шляпа", "😀", "{{a}}", "}}", "<x>", "true"}
-var tmplPads = []string{"", "", "", " ", "  ", "\t", "\n"}
+var tmplPads = []string{"", "", "", "", " ", "  ", "\t", "\n", " ", "\v", "\f", "\x1f", "\r\n", " \x01", "\x00"}
 
 type tmplGen struct{ r *mon.Rng }
 
@@ -250,6 +251,28 @@ func c10Exec(c *mon.Case) {
 			c.Failf("rendering with an explicitly passed empty map differs from the reference semantics"+cls, "template=%q (default variables all set to DEFAULT)\nwant %q\ngot  %q (%v %v)", src, model.RenderTemplate(nodes, map[string]string{}), got3, p, e3)
 			return
 		}
+		// the token-list entry point: the text, with blanks around it, cut by a stand-alone mustache tokenizer (configured
+		// as the parser configures its own) and handed over with SetOriginalTokens; nothing is trimmed on this route, so
+		// the blanks are literal text
+		lead := []string{"", " ", "\n ", "\t"}[len(src)%4]
+		trail := []string{"", " ", " \r\n", ""}[len(want)%4]
+		var got4 string
+		var e4, e5 error
+		var composed string
+		if p := mon.Try(func() {
+			tk := mtok.NewMustacheTokenizer()
+			setOptions(tk, optSkipWhitespaces|optSkipComments|optSkipEof|optDecodeStrings)
+			toks := tk.TokenizeBuffer(lead + src + trail)
+			t := mustache.NewMustacheTemplate()
+			if e4 = t.SetOriginalTokens(toks); e4 == nil {
+				got4, e5 = t.EvaluateWithVariables(vars)
+				composed = t.Template()
+			}
+		}); p != nil || e4 != nil || e5 != nil || got4 != lead+want+trail {
+			c.Failf("rendering a template handed over as a token list differs from the reference semantics"+cls, "text=%q variables=%q\nwant %q\ngot  %q (%v %v %v)", lead+src+trail, vars, lead+want+trail, got4, p, e4, e5)
+			return
+		}
+		_ = composed
 		if hasKind(nodes, "section") {
 			c.NonTrivial()
 		}
@@ -425,7 +448,7 @@ func c10Sample(payload string) any {
 func buildC10(cfg *mon.Config) []*mon.Sub {
 	trees := &mon.Sub{
 		Name:  "generated-trees",
-		Rule:  fmt.Sprintf("seeded template trees of depth <= %d and up to %d nodes per level mixing literal text (all of Unicode incl. single braces, quotes, astral characters), variables, escaped variables, comments and nested sections in every spelling ('#', '#if', '^', '#unless'; closed by name, '/if', '/unless'; double and triple braces; blanks, tabs and line breaks inside tags), names from ASCII, Latin-1 and Cyrillic in random letter case, x variable maps with present, absent and empty values (values with every escaped character, non-ASCII, brace runs) and keys in random letter case; oracle: SetTemplate succeeds and the rendering equals the reference rendering of the tree (text verbatim, value or nothing, escaped value, body iff present and non-empty / iff not, case-insensitive keys); non-trivial = the template has a section; distinct by hash", cfg.N(3, 6), cfg.N(6, 12)),
+		Rule:  fmt.Sprintf("seeded template trees of depth <= %d and up to %d nodes per level mixing literal text (all of Unicode incl. single braces, quotes, astral characters), variables, escaped variables, comments and nested sections in every spelling ('#', '#if', '^', '#unless'; closed by name, '/if', '/unless'; double and triple braces; blanks, tabs, line breaks and control characters inside tags), names from ASCII, Latin-1 and Cyrillic in random letter case, x variable maps with present, absent and empty values (values with every escaped character, non-ASCII, brace runs) and keys in random letter case; oracle: SetTemplate succeeds and the rendering equals the reference rendering of the tree (text verbatim, value or nothing, escaped value, body iff present and non-empty / iff not, case-insensitive keys), also on an instance that parsed another template before, with an explicitly passed empty map, and when the text (with blanks around it, which are literal text on this route) is cut by a stand-alone mustache tokenizer and handed over with SetOriginalTokens; non-trivial = the template has a section; distinct by hash", cfg.N(3, 6), cfg.N(6, 12)),
 		Floor: 500,
 		Gen: func(emit func(string)) {
 			r := cfg.Rng("c10-trees")
